@@ -154,3 +154,105 @@ Proof.
     assert (u' <> nk n) as N1. { intros X. apply Hk. rewrite <- X, <- Hu', E. unfold node_keys. rewrite map_app. apply in_or_app. right. now left. }
     assert (v' <> nk n) as N2 by (intros X; apply Hs; now left). intros [[E1 _]|[E1 _]]; congruence.
 Qed.
+
+(** ---------------------------------------------------------------- edge attribute dicts have unique keys *)
+Definition edge_nodup (g : graph) : Prop := forall n, In n g -> forall w d, In (w, d) (nadj n) -> NoDup (map fst d).
+
+Lemma aset_keys k v a : forall x, In x (map fst (aset k v a)) <-> In x (map fst a) \/ x = k.
+Proof.
+  induction a as [|[k' v'] r IH]; intros x; cbn; [intuition|]. destruct (str_eqb_spec k k') as [->|N]; cbn; [intuition|]. rewrite IH. intuition.
+Qed.
+Lemma aset_nodup k v a : NoDup (map fst a) -> NoDup (map fst (aset k v a)).
+Proof.
+  induction a as [|[k' v'] r IH]; cbn; intros H; [repeat constructor; tauto|]. inversion H as [|? ? Hk Hr]; subst.
+  destruct (str_eqb_spec k k') as [->|N]; cbn; [now constructor|]. constructor; [|now apply IH]. rewrite aset_keys. intros [X|X]; [contradiction|congruence].
+Qed.
+Lemma aupdate_nodup b : forall a, NoDup (map fst a) -> NoDup (map fst (aupdate a b)).
+Proof. unfold aupdate. induction b as [|[k v] r IH]; intros a H; [exact H|]. cbn [fold_left]. apply IH. now apply aset_nodup. Qed.
+Lemma adj_set_in v d0 l w d : In (w, d) (adj_set v d0 l) -> (w, d) = (v, d0) \/ In (w, d) l.
+Proof.
+  induction l as [|[x b] r IH]; cbn; [intros [E|[]]; now left|]. destruct (Z.eqb_spec x v) as [->|N]; cbn.
+  - intros [E|H]; [left; exact (eq_sym E)|right; now right].
+  - intros [E|H]; [right; now left|]. destruct (IH H); [now left|right; now right].
+Qed.
+
+Lemma edge_nodup_gupdate k f g : (forall n, (forall w d, In (w, d) (nadj n) -> NoDup (map fst d)) -> forall w d, In (w, d) (nadj (f n)) -> NoDup (map fst d)) ->
+  edge_nodup g -> edge_nodup (gupdate k f g).
+Proof.
+  intros Hf H. induction g as [|m r IH]; cbn; [exact H|]. destruct (Z.eqb (nk m) k); intros n [<-|Hin].
+  - apply Hf. apply H. now left.
+  - apply H. now right.
+  - apply H. now left.
+  - apply IH; [|exact Hin]. intros n' Hn'. apply H. now right.
+Qed.
+Lemma edge_nodup_set_node_attr g k a v : edge_nodup g -> edge_nodup (set_node_attr g k a v).
+Proof. apply edge_nodup_gupdate. auto. Qed.
+Lemma edge_nodup_app g n : edge_nodup g -> nadj n = [] -> edge_nodup (g ++ [n]).
+Proof. intros H Hn m Hin w d Hd. apply in_app_or in Hin as [Hin|[<-|[]]]; [eapply H; eauto|rewrite Hn in Hd; contradiction]. Qed.
+Lemma edge_nodup_add_node g k a : edge_nodup g -> edge_nodup (add_node g k a).
+Proof.
+  intros H. unfold add_node. destruct (has_node g k); [apply edge_nodup_gupdate; auto|]. now apply edge_nodup_app.
+Qed.
+Lemma edge_attrs_nodup g u v o : edge_nodup g -> edge_attrs g u v = Ok o -> NoDup (map fst o).
+Proof.
+  intros H E. unfold edge_attrs in E. destruct (gfind u g) as [n|] eqn:G; [|discriminate]. destruct (adj_get v (nadj n)) as [a|] eqn:A; [|discriminate].
+  inversion E; subst. apply (H n (gfind_In _ _ _ G) v). clear -A. induction (nadj n) as [|[w b] r IH]; cbn in A; [discriminate|].
+  destruct (Z.eqb_spec w v) as [->|N]; [inversion A; now left|right; auto].
+Qed.
+Lemma edge_nodup_add_edge g u v a : edge_nodup g -> edge_nodup (add_edge g u v a).
+Proof.
+  intros H. unfold add_edge.
+  set (g1 := if has_node g u then g else g ++ [{| nk := u; na := []; nadj := [] |}]).
+  assert (edge_nodup g1) as H1 by (unfold g1; destruct (has_node g u); [exact H|now apply edge_nodup_app]).
+  set (g2 := if has_node g1 v then g1 else g1 ++ [{| nk := v; na := []; nadj := [] |}]).
+  assert (edge_nodup g2) as H2 by (unfold g2; destruct (has_node g1 v); [exact H1|now apply edge_nodup_app]).
+  assert (NoDup (map fst (aupdate (match edge_attrs g2 u v with Ok d => d | Err _ => [] end) a))) as Hd.
+  { apply aupdate_nodup. destruct (edge_attrs g2 u v) as [o|] eqn:E; [eapply edge_attrs_nodup; eauto|constructor]. }
+  apply edge_nodup_gupdate; [|apply edge_nodup_gupdate; [|exact H2]]; intros n Hn w d Hin; cbn [nadj] in Hin;
+    (apply adj_set_in in Hin as [E|Hin]; [inversion E; subst; exact Hd|eapply Hn; eauto]).
+Qed.
+
+Lemma edge_nodup_merge src tgt g corr : edge_nodup src -> merge_graphs src tgt = Ok (g, corr) -> edge_nodup g.
+Proof.
+  intros H. unfold merge_graphs. destruct (merge_offsets src) as [[off fo]|]; cbn [bind]; [|discriminate].
+  destruct (fold_res _ tgt src) as [src1|] eqn:E1; cbn [bind]; [|discriminate]. intros E. inversion E; subst. clear E.
+  apply fold_left_inv.
+  - intros acc0 [[u v] d] Hacc. destruct (Z.eqb _ _); [exact Hacc|now apply edge_nodup_add_edge].
+  - eapply (fold_res_inv edge_nodup); [|exact H|exact E1]. intros b x b' Hb Eb. cbn in Eb.
+    destruct (merge_node _ _ _); cbn in Eb; [|discriminate]. inversion Eb. now apply edge_nodup_add_node.
+Qed.
+Lemma edge_nodup_disc_step fd mol fgs mn mol' fgs' : edge_nodup mol -> disc_step fd (mol, fgs) mn = Ok (mol', fgs') -> edge_nodup mol'.
+Proof.
+  intros H. unfold disc_step. destruct (aget (S "fragname") (na mn)) as [fv|]; cbn [of_option bind]; [|discriminate].
+  destruct (lookup_fragment fd fv) as [[name frag]|].
+  - destruct (merge_graphs mol frag) as [[mol1 corr]|] eqn:Em; cbn [bind]; [|discriminate].
+    destruct (frag_graph_of mol1 frag corr (nk mn) name); cbn [bind]; [|discriminate]. intros E. inversion E; subst.
+    apply fold_left_inv; [intros acc0 x Hacc; now apply edge_nodup_set_node_attr, edge_nodup_set_node_attr|]. eapply edge_nodup_merge; eauto.
+  - destruct (virtual_ok mn) as [u|e]; cbn; [|intros X; discriminate X]. intros E. inversion E; now subst.
+Qed.
+Theorem edge_nodup_disconnected fd meta mol fgs : resolve_disconnected fd meta = Ok (mol, fgs) -> edge_nodup mol.
+Proof.
+  unfold resolve_disconnected. intros E.
+  refine (fold_res_inv (fun st => edge_nodup (fst st)) (disc_step fd) meta _ (gempty, []) (mol, fgs) _ E).
+  - intros [m f] x [m' f'] Hb Eb. cbn in *. eapply edge_nodup_disc_step; eauto.
+  - intros n [].
+Qed.
+Lemma edge_nodup_apply_bond aa mol b mol' : edge_nodup mol -> apply_bond aa mol b = Ok mol' -> edge_nodup mol'.
+Proof.
+  intros H. unfold apply_bond. pose proof (edge_nodup_add_edge mol (b_u b) (b_v b) (bond_attrs b) H) as H1. destruct aa.
+  - apply (fold_res_inv edge_nodup); [|exact H1]. intros m n m' Hm.
+    destruct (node_get m n (S "element")) as [el|]; cbn [of_option bind]; [|discriminate].
+    destruct (pyval_eqb el _); [intros E; inversion E; now subst|].
+    destruct (node_get m n (S "hcount")) as [hc|]; cbn [of_option bind]; [|discriminate].
+    destruct (dec_hcount _ hc); cbn [bind]; [|discriminate]. intros E. inversion E. now apply edge_nodup_set_node_attr.
+  - intros E. inversion E. now subst.
+Qed.
+Theorem edge_nodup_bonding legacy aa meta mol fgs mol' fgs' : edge_nodup mol ->
+  bonding_step legacy aa meta mol fgs = Ok (mol', fgs') -> edge_nodup mol'.
+Proof.
+  intros H. unfold bonding_step. destruct (bonds_of legacy meta mol fgs) as [[s1 bonds]|]; cbn [bind]; [|discriminate].
+  destruct (fold_res (apply_bond aa) bonds mol) as [m|] eqn:E; cbn [bind]; [|discriminate]. intros X. inversion X; subst.
+  eapply (fold_res_inv edge_nodup); [|exact H|exact E]. intros b x b' Hb Eb. eapply edge_nodup_apply_bond; eauto.
+Qed.
+Lemma edges_data_nodup g u v d : edge_nodup g -> In (u, v, d) (edges_data g) -> NoDup (map fst d).
+Proof. intros H Hin. apply edges_from_in in Hin as (n & Hn & _ & Hd). eapply H; eauto. Qed.
